@@ -526,13 +526,16 @@ def indirectA : Nat → Bool → Val → Val × Bool × Bool
   | _, a, v => (v, false, a)
 
 /-- the method sets of the harness types with methods (`T3`): name ↦ needs a pointer receiver -/
-def methodsOf (tname : String) : List (String × Bool) :=
-  if tname == "T3" then [("Tag", false), ("PTag", true), ("Cat", false), ("Mix", false)] else []
+def methodsOf (tname : String) : List (Bytes × String × Bool) :=
+  -- names spelled as bytes (kernel reduction does not compute `String.toUTF8`)
+  if tname == "T3" then
+    [([84, 97, 103], "Tag", false), ([80, 84, 97, 103], "PTag", true), ([67, 97, 116], "Cat", false), ([77, 105, 120], "Mix", false)]
+  else []
 
 /-- `ptr.MethodByName(name)` where `ptr = v.Addr()` if `v` is addressable -/
 def methodByName (tname : String) (addressable : Bool) (name : Bytes) : Option String :=
-  (methodsOf tname).findSome? fun (m, needsPtr) =>
-    if asciiBytes m == name && (addressable || !needsPtr) then some m else none
+  (methodsOf tname).findSome? fun (nb, m, needsPtr) =>
+    if nb == name && (addressable || !needsPtr) then some m else none
 
 /-- eval.go `indexArg` -/
 def indexArg (index : Val) (cap : Nat) : P Nat :=
